@@ -132,6 +132,7 @@ type threadClose struct{}
 // t.Resume() method needs to be called to provide arguments to the callable.
 func (t *Thread) Start(c Callable) {
 	t.RequireBytes(2 << 10) // A goroutine starts off with 2k stack
+	verifThread("start", t, nil)
 	go func() {
 		var (
 			args []Value
@@ -152,6 +153,7 @@ func (t *Thread) Start(c Callable) {
 				}
 			}
 			t.end(args, err, r)
+			verifThread("exit", t, nil)
 		}()
 		args, err = t.getResumeValues()
 		if err == nil {
@@ -186,6 +188,7 @@ func (t *Thread) Resume(caller *Thread, args []Value) ([]Value, error) {
 	}
 	t.caller = caller
 	t.status = ThreadOK
+	verifThread("resume", t, caller)
 	t.mux.Unlock()
 	caller.mux.Unlock()
 	t.sendResumeValues(args, nil, nil)
@@ -216,6 +219,7 @@ func (t *Thread) Close(caller *Thread) (bool, error) {
 	// becoming dead.
 	t.caller = caller
 	t.status = ThreadOK
+	verifThread("close", t, caller)
 	t.mux.Unlock()
 	caller.mux.Unlock()
 	t.sendResumeValues(nil, nil, threadClose{})
@@ -241,6 +245,7 @@ func (t *Thread) Yield(args []Value) ([]Value, error) {
 	}
 	t.status = ThreadSuspended
 	t.caller = nil
+	verifThread("yield", t, caller)
 	t.mux.Unlock()
 	caller.mux.Unlock()
 	caller.sendResumeValues(args, nil, nil)
@@ -264,9 +269,11 @@ func (t *Thread) end(args []Value, err error, exception interface{}) {
 	close(t.resumeCh)
 	t.status = ThreadDead
 	t.caller = nil
+	verifThread("dead", t, caller)
 	err = t.cleanupCloseStack(nil, 0, err) // TODO: not nil
 	t.closeErr = err
 	caller.sendResumeValues(args, err, exception)
+	verifThread("release", t, caller)
 	t.ReleaseBytes(2 << 10) // The goroutine will terminate after this
 }
 
@@ -278,6 +285,7 @@ func (t *Thread) call(c Callable, args []Value, next Cont) error {
 
 func (t *Thread) getResumeValues() ([]Value, error) {
 	res := <-t.resumeCh
+	verifThread("recv", t, nil)
 	if res.exception != nil {
 		panic(res.exception)
 	}
@@ -285,7 +293,9 @@ func (t *Thread) getResumeValues() ([]Value, error) {
 }
 
 func (t *Thread) sendResumeValues(args []Value, err error, exception interface{}) {
+	verifThread("send", t, nil)
 	t.resumeCh <- valuesError{args: args, err: err, exception: exception}
+	verifThread("sent", t, nil)
 }
 
 //
